@@ -1849,6 +1849,10 @@ class SupplyChainNode(object):
 								# Keys (products) may have been saved as strings -- replace with ints.
 								value = replace_dict_numeric_string_keys(value)
 							del the_dict[attr_name]['dict_type']
+						elif is_dict(the_dict[attr_name]):
+							# Product-keyed dict of plain values: keys (products) may have been saved as strings
+							# (e.g., by JSON) -- replace with ints.
+							value = replace_dict_numeric_string_keys(value)
 					else:
 						value = cls._DEFAULT_VALUES[attr_name]
 				setattr(node, attr_name, value)
